@@ -419,16 +419,16 @@ Proof.
   split; [exact L1|]. split; [exact L2|exact L4].
 Qed.
 
-Lemma readLitDistLens_lock : forall cl sA sB hdist hlit,
+Lemma readLitDistLens_lock : forall cl sA sB hdist hlit rA rB,
+  readLitDistLens sA hdist hlit = rA -> readLitDistLens sB hdist hlit = rB ->
   clc_same cl sA sB -> REL 0 (rd sA) (rd sB) ->
   litAndDistHuff (dyn sA) = litAndDistHuff (dyn sB) -> litCount (dyn sA) = litCount (dyn sB) ->
   distCount (dyn sA) = distCount (dyn sB) -> litExpandCount (dyn sA) = litExpandCount (dyn sB) ->
-  (snd (readLitDistLens sA hdist hlit) = snd (readLitDistLens sB hdist hlit) /\
-   snd (readLitDistLens sA hdist hlit) <> EEndInput /\
-   REL 0 (rd (fst (readLitDistLens sA hdist hlit))) (rd (fst (readLitDistLens sB hdist hlit)))) \/
-  FINE (rd (fst (readLitDistLens sB hdist hlit))) (snd (readLitDistLens sB hdist hlit)).
+  (snd rA = snd rB /\ snd rA <> EEndInput /\ REL 0 (rd (fst rA)) (rd (fst rB))) \/
+  FINE (rd (fst rB)) (snd rB).
 Proof.
-  intros cl sA sB hdist hlit. rewrite (rld_body_eq sA), (rld_body_eq sB). apply rld_body_lock.
+  intros cl sA sB hdist hlit rA rB HA HB. rewrite rld_body_eq in HA, HB. subst rA rB.
+  apply rld_body_lock.
 Qed.
 
 End Lock.
